@@ -353,7 +353,27 @@ def _run_case(case, ctx):
         desc = {"gen": g, "shape": list(X.shape), "rank_spec": rank, "expected_ranks": exp, "svd": svd, "dtype": dt}
         if g == "ttm" and order == 1:
             exp = [1, 1]
-        out = D.tensor_train(X, rank, svd=svd) if g == "tt" else D.tensor_train_matrix(X, rank, svd=svd)
+        via = "function"
+        if spec == "list" and rs.rand() < 0.35:
+            # history: the caller's rank list (or one estimator holding it) was used on a smaller tensor first, where ranks got clipped;
+            # this call's ranks follow from its own tensor and the list as the caller wrote it
+            small_shape = [max(1, s_ // 2) for s_ in X.shape]
+            Xs_ = gen.arr(rs, small_shape, dt, "gauss")
+            via = gen.choice(rs, ["function-list-reused", "estimator-refit"])
+            ctx.count("tt_rank_list_history/" + via)
+            if via == "estimator-refit":
+                est = (D.TensorTrain if g == "tt" else D.TensorTrainMatrix)(rank=rank, svd=svd)
+                est.fit_transform(Xs_)
+                out = est.fit_transform(X)
+            else:
+                (D.tensor_train if g == "tt" else D.tensor_train_matrix)(Xs_, rank, svd=svd)
+                out = D.tensor_train(X, rank, svd=svd) if g == "tt" else D.tensor_train_matrix(X, rank, svd=svd)
+            if list(rank) != req:
+                viol(g, "caller-rank-list-edited", via, "the rank list the caller passed reads %s after the calls (was %s)" % (list(rank), req), desc)
+                return
+            spec = "list+" + via
+        else:
+            out = D.tensor_train(X, rank, svd=svd) if g == "tt" else D.tensor_train_matrix(X, rank, svd=svd)
         cores = list(out.factors)
         if max(exp) > 1:
             ctx.nontriv(desc)
@@ -512,6 +532,19 @@ def _run_case(case, ctx):
                 bad = [c for c in range(rank) if not _unit_or_zero(f, wv[c], eps, c)]
                 if bad:
                     viol("parafac2", "normalised-columns", cls_k, "normalize_factors=True but columns %s of %s have norms %s" % (bad, nm, np.linalg.norm(ref.hp(f), axis=0)[bad]), desc)
+                    return
+            if path == "cap" and n_iter >= 1:
+                # "...with the scale carried by the weights": normalising moves scale around, it does not remove it. The twin run
+                # without the option (same start, same budget) represents the same slices up to the inexactness of the inner solvers.
+                ctx.count("clause/scale-carried-by-weights")
+                r2 = decomp.run("parafac2", data, rank, n_iter, dict(opts, normalize_factors=False), seed, tol=tolv, init=warm)
+                d_n = decomp.dense("parafac2", decomp.snapshot(r["decomp"]))
+                d_p = decomp.dense("parafac2", decomp.snapshot(r2["decomp"]))
+                num = float(np.sqrt(sum(ref.frob_sq(a_ - b_) for a_, b_ in zip(d_n, d_p))))
+                den = float(np.sqrt(sum(ref.frob_sq(b_) for b_ in d_p))) + 1e-300
+                if not np.isfinite(num) or num > 0.05 * den + 1e3 * eps * den:
+                    viol("parafac2", "scale-carried-by-weights", "nn_modes" if "nn_modes" in opts else "plain", "the normalised run represents other slices than the same run without normalisation "
+                         "(relative difference %.3g): the scale taken out of the columns is not in the weights" % (num / den), desc)
                     return
         else:
             ctx.count("clause/unit-weights")
